@@ -20,6 +20,7 @@ import (
 	"os"
 	"os/exec"
 	"path/filepath"
+	"sort"
 	"sync"
 	"testing"
 	"time"
@@ -122,6 +123,13 @@ type vfxTruth struct {
 	BuildErr  string     `json:"build_err"`
 	ConfigYml string     `json:"config_yml"`
 	BuildMs   int64      `json:"build_ms"`
+}
+
+// sortedTxs returns the block's transactions in recorded position order (Txs is in entry order).
+func (b *vfxBlock) sortedTxs() []vfxTx {
+	out := append([]vfxTx(nil), b.Txs...)
+	sort.Slice(out, func(i, j int) bool { return out[i].Pos < out[j].Pos })
+	return out
 }
 
 func (t *vfxTruth) base() uint64 { return t.Spec.Epoch * vfxEpochLen }
@@ -257,14 +265,31 @@ func vfxGenerate(spec vfxSpec) (*vfxTruth, []byte) {
 		if s != 0 && s != spec.NumSlots-1 && rng.Intn(100) < spec.SkipPercent {
 			continue
 		}
-		gb := vfxBlock{Slot: slot, Parent: parent, Blocktime: int64(1_600_000_000 + slot*2 + uint64(spec.Variant)), Height: slot - uint64(rng.Intn(3)), HasHeight: rng.Intn(5) != 0}
+		gb := vfxBlock{Slot: slot, Parent: parent, Blocktime: int64(1_600_000_000 + slot*2 + uint64(spec.Variant)), Height: slot/2 + uint64(rng.Intn(3)), HasHeight: rng.Intn(5) != 0}
 		nEntries := 1 + rng.Intn(spec.MaxEntries)
 		var entryLinks ipldbindcode.List__Link
-		pos := 0
+		// transactions per entry, and the recorded position of each transaction: usually entry order, but
+		// in some blocks a permutation of it (the reply must follow the RECORDED positions)
+		ntxs := make([]int, nEntries)
+		total := 0
+		for e := range ntxs {
+			ntxs[e] = rng.Intn(spec.MaxTx + 1)
+			total += ntxs[e]
+		}
+		positions := make([]int, total)
+		for i := range positions {
+			positions[i] = i
+		}
+		if rng.Intn(3) == 0 {
+			positions = rng.Perm(total)
+		}
+		seq := 0
 		for e := 0; e < nEntries; e++ {
-			ntx := rng.Intn(spec.MaxTx + 1)
+			ntx := ntxs[e]
 			var txLinks ipldbindcode.List__Link
 			for k := 0; k < ntx; k++ {
+				pos := positions[seq]
+				seq++
 				var sig solana.Signature
 				copy(sig[:], rng.Bytes(64))
 				binary.LittleEndian.PutUint64(sig[32:], slot) // keeps signatures distinct across slots
@@ -357,7 +382,6 @@ func vfxGenerate(spec vfxSpec) (*vfxTruth, []byte) {
 					vt.Loaded = append(vt.Loaded, a.String())
 				}
 				gb.Txs = append(gb.Txs, vt)
-				pos++
 			}
 			hash := rng.Bytes(32)
 			en := ipldbindcode.Entry{Kind: 1, NumHashes: 1 + rng.Intn(1000), Hash: hash, Transactions: txLinks}
@@ -446,8 +470,22 @@ func vfxConfigYaml(tr *vfxTruth, carURI string) string {
 	if tr.GsfaDir != "" {
 		cfg += fmt.Sprintf("  gsfa:\n    uri: '%s'\n", tr.GsfaDir)
 	}
+	if tr.Spec.Epoch == 0 {
+		cfg += fmt.Sprintf("genesis:\n  uri: '%s'\n", filepath.Join(vfxRepoRoot(), "radiance/genesis/testdata/mainnet/genesis.tar.bz2"))
+	}
 	return cfg
 }
+
+// vfxRepoRoot: the package directory of package main (the tests start there); children get it by env.
+var vfxRoot = func() string {
+	if r := os.Getenv("VFX_REPO_ROOT"); r != "" {
+		return r
+	}
+	wd, _ := os.Getwd()
+	return wd
+}()
+
+func vfxRepoRoot() string { return vfxRoot }
 
 // TestVerif_FixtureChild is run in a child process (env VFX_SPEC = path of a spec JSON file).
 func TestVerif_FixtureChild(t *testing.T) {
@@ -539,7 +577,7 @@ func vfxBuild(specs []vfxSpec) ([]*vfxTruth, error) {
 			b, _ := json.Marshal(sp)
 			_ = os.WriteFile(specPath, b, 0o644)
 			cmd := exec.Command(os.Args[0], "-test.run", "^TestVerif_FixtureChild$", "-test.count=1", "-test.timeout=600s")
-			cmd.Env = append(os.Environ(), "VFX_SPEC="+specPath)
+			cmd.Env = append(os.Environ(), "VFX_SPEC="+specPath, "VFX_REPO_ROOT="+vfxRepoRoot())
 			cmd.Dir = sp.Dir
 			out, err := cmd.CombinedOutput()
 			if err != nil {
